@@ -3421,6 +3421,16 @@ iwrc iwkv_puth(
   uint8_t nbuf[IW_VNUMBUFSZ];
   iwrc rc = _to_effective_key(db, key, &ekey, nbuf);
   RCRET(rc);
+  {
+    // Reject an over-sized pair before any block is touched
+    size_t ksize = ekey.size;
+    if (db->dbflg & IWDB_COMPOUND_KEYS) {
+      ksize += IW_VNUMSIZE(ekey.compound);
+    }
+    if (IW_VNUMSIZE(ksize) + ksize + val->size > IWKV_MAX_KVSZ) {
+      return IWKV_ERROR_MAXKVSZ;
+    }
+  }
 
   struct iwlctx lx = {
     .db = db,
